@@ -29,14 +29,8 @@ theorem check_vouch (x : UInt64) :
     Raffle.check baseTimeCheck x (vouchRaw nfsVouch x) = true ∧
     Raffle.check baseTimeCheck x (vouchRaw abtVouch x) = true ∧
     vouch? nfsVouch x = some (vouchRaw nfsVouch x) ∧
-    vouch? abtVouch x = some (vouchRaw abtVouch x) := by
-  have hn : nfsVouch.Matched := ⟨by decide +kernel, by decide +kernel⟩
-  have ha : abtVouch.Matched := ⟨by decide +kernel, by decide +kernel⟩
-  have en : nfsVouch.checking = baseTimeCheck := by decide +kernel
-  have ea : abtVouch.checking = baseTimeCheck := by decide +kernel
-  refine ⟨?_, ?_, vouch?_eq _ hn x, vouch?_eq _ ha x⟩
-  · rw [← en]; exact check_vouchRaw _ hn x
-  · rw [← ea]; exact check_vouchRaw _ ha x
+    vouch? abtVouch x = some (vouchRaw abtVouch x) :=
+  ⟨check_nfs x, check_abt x, vouch?_nfs x, vouch?_abt x⟩
 
 /-- A voucher vouches for at most one base time. -/
 theorem check_injective (v x y : UInt64) :
@@ -48,10 +42,9 @@ exactly one solution per base time: the voucher the crate's own vouching
 parameters compute. -/
 theorem voucher_unique (x v : UInt64) :
     Raffle.check baseTimeCheck x v = true ↔ v = vouchRaw nfsVouch x := by
-  have hinv : baseTimeCheck.Invertible (0 - (nfsVouch.scale ^^^ vouchingTag)) := ⟨by decide +kernel⟩
   constructor
   · intro h
-    exact check_inj_voucher baseTimeCheck _ hinv x v _ h (check_vouch x).1
+    exact check_inj_voucher baseTimeCheck _ baseTimeCheck_invertible x v _ h (check_vouch x).1
   · rintro rfl; exact (check_vouch x).1
 
 /-- **The acceptance rule.**  For every representable local time, every 64-bit
